@@ -63,7 +63,12 @@ SENDER == {[k |-> "sender", n |-> n] : n \in {0, 1, 31, 32, 33, 64}}
 ATTR == {[k |-> "attr", kind |-> c, depth |-> d, fork |-> f, pc |-> p] :
             c \in {"CALL", "CALLCODE", "DELEGATECALL", "STATICCALL"}, d \in {1, 2}, f \in Forks, p \in {"write", "read", "sender"}}
 
-Vectors == (IF "write" \in Kinds THEN WRITE ELSE {}) \cup (IF "read" \in Kinds THEN READ ELSE {})
+\* two contracts reach 0x66 one after the other (same process, same precompile table): the second write must not
+\* inherit anything from the first
+SEQ == {[k |-> "seq", kind1 |-> c1, kind2 |-> c2, same |-> sm, fork |-> f] :
+           c1 \in {"CALL", "DELEGATECALL"}, c2 \in {"CALL", "CALLCODE", "DELEGATECALL", "STATICCALL"}, sm \in BOOLEAN, f \in Forks \ {"Istanbul"}}
+
+Vectors == (IF "attr" \in Kinds THEN SEQ ELSE {}) \cup (IF "write" \in Kinds THEN WRITE ELSE {}) \cup (IF "read" \in Kinds THEN READ ELSE {})
            \cup (IF "sender" \in Kinds THEN SENDER ELSE {}) \cup (IF "attr" \in Kinds THEN ATTR ELSE {})
 
 Init == vec \in Vectors
@@ -75,6 +80,7 @@ Expect(v) ==
     [] v.k = "read" -> ReadExpect(v)
     [] v.k = "sender" -> SenderExpect(v)
     [] v.k = "attr" -> AttrExpect(v)
+    [] v.k = "seq" -> [avail |-> TRUE, must |-> IF v.kind2 = "CALL" THEN "caller" ELSE "caller-or-refused"]
 
 \* design sanity: an accepted write lies inside the payload and behind the heads' own length words
 WriteInside ==
